@@ -1,6 +1,6 @@
 --------------------------- MODULE Trace_Matrix ---------------------------
 (* Leg T of C20, Symmetrical and GoString: calls recorded by `vh matrix-drive`.
-   event = [sid, op \in {"symmetrical", "gostring"},
+   event = [sid, op \in {"symmetrical", "gostring", "get", "stepname"},
             m (the receiver before the call: <<x, y, atom>>), after (the receiver after the call),
             panic, res (Symmetrical: the returned matrix),
             parseok, out (GoString: the text evaluated as Go source with go/parser + go/constant - the
@@ -17,6 +17,13 @@ Reason(e) ==
   LET m == TriplesOf(e.m)
   IN IF Len(e.m) # Cardinality(m) \/ ~IsFunctional(m) THEN "driver-matrix"
      ELSE IF TriplesOf(e.after) # m \/ Len(e.after) # Len(e.m) THEN "receiver-modified"
+     ELSE IF e.op = "get" THEN            \* (not a listed property: a difference is a NOTE)
+            LET want == PGet(m, e.x, e.y)
+            IN IF e.panic # want.panic THEN "NOTE-get-panics-iff-the-pair-is-missing"
+               ELSE IF ~e.panic /\ e.val # want.v THEN "NOTE-get-value" ELSE "ok"
+     ELSE IF e.op = "stepname" THEN
+            IF e.panic # (StepName(e.x) = "") THEN "NOTE-step-string-panics-iff-unknown"
+            ELSE IF ~e.panic /\ e.name # StepName(e.x) THEN "NOTE-step-name" ELSE "ok"
      ELSE IF e.op = "symmetrical" THEN
             LET want == PSymmetrical(m)
             IN IF e.panic /\ ~want.panic THEN "panic-without-conflict"
